@@ -365,9 +365,10 @@ package ro
 //@ func (*unicastSubjectImpl).SubscribeWithContext
 //@   props C01 C03 C10 C13 C02 C05 C20 C08 C09 C06
 //@   binds subscriberCtx destination
-//@   ensures [one-critical-section|C05,C08,C10,C13,C20,C09] count(lock.mu) == 1 && heldat(mu, sub.ANY) && heldat(mu, loop.ANY)
-//@   alias sub=NewSubscriber()
-//@   track call.NewSubscriber NewSubscriber().* loop.*
+//@   ensures [one-critical-section|C05,C08,C10,C13,C20,C09] count(lock.mu) == 1 && heldat(mu, sub.NextWithContext) && heldat(mu, sub.ErrorWithContext) && heldat(mu, sub.CompleteWithContext) && heldat(mu, loop.ANY)
+//@   ensures [teardown-registered-outside-the-subject-lock-because-a-closed-subscriber-runs-it-at-once|C06,C03,C10] notheldat(mu, sub.Add)
+//@   alias sub=subscription
+//@   track call.NewSubscriber subscription.* loop.*
 //@   ensures [first-subscriber-gets-backlog-then-attached|C01,C02,C10,C09] atlock(status) == 0 && atlock(observer) == nil ==> trace(call.NewSubscriber(destination), loop.L0, sub.Add(_)) && atunlock(observer) == res(call.NewSubscriber) && len(atunlock(values)) == 0
 //@   ensures [second-subscriber-rejected|C10,C09] atlock(status) == 0 && atlock(observer) != nil ==> trace(call.NewSubscriber(destination), sub.ErrorWithContext(subscriberCtx, ErrUnicastSubjectConcurrent)) && atunlock(observer) == atlock(observer)
 //@   ensures [late-subscriber-gets-backlog-then-stored-error|C10] atlock(status) == 1 ==> trace(call.NewSubscriber(destination), loop.L0, sub.ErrorWithContext(atlock(err).A, atlock(err).B))
@@ -380,7 +381,7 @@ package ro
 //@   invariant ranged == atlock(values)
 //@   iteration emits sub.NextWithContext(ranged[it].A, ranged[it].B)
 
-//@ func (*unicastSubjectImpl).SubscribeWithContext$1
+//@ func (*unicastSubjectImpl).SubscribeWithContext$1$1
 //@   props C03 C10 C13 C09 C06
 //@   ensures [teardown-detaches-under-lock|C03,C10,C13] atunlock(observer) == nil && count(lock.mu) == 1
 
